@@ -137,11 +137,14 @@ class StreamingHandler(AsyncCallbackHandler, AsyncIterator):
         else:
             return element
 
-    async def _process(self, chunk: str):
+    async def _process(self, chunk: str, final: bool = False):
         """Process a chunk of text.
 
         If we're in buffering mode, we just record it.
         If we need to pipe it to another streaming handler, we do that.
+
+        When `final` is set, the chunk is the last piece of text of the stream, i.e., the
+        one which is expected to end with the suffix.
         """
         if self.enable_buffer:
             self.buffer += chunk
@@ -154,39 +157,42 @@ class StreamingHandler(AsyncCallbackHandler, AsyncIterator):
         else:
             # Temporarily save the content of the completion before this new chunk.
             prev_completion = self.completion
+            stopped = False
             if chunk is not None:
                 self.completion += chunk
 
                 # Check if the completion contains one of the stop chunks
-                for stop_chunk in self.stop:
-                    if stop_chunk in self.completion:
-                        # Make sure the stop chunk is not included
-                        self.completion = self.completion.split(stop_chunk)[0]
+                stop_positions = [
+                    self.completion.find(stop_chunk)
+                    for stop_chunk in self.stop
+                    if stop_chunk in self.completion
+                ]
+                if stop_positions:
+                    # Make sure the first stop chunk and what follows it are not included
+                    self.completion = self.completion[: min(stop_positions)]
+                    stopped = True
 
-                        # If the current chunk does add something new to the final completion
-                        # We push that as well.
-                        if len(self.completion) > len(prev_completion):
-                            self.current_chunk = self.completion[len(prev_completion) :]
-                            await self.push_chunk(None)
+                if stopped or final:
+                    # The text ends here, hence this is where the suffix is expected.
+                    if self.suffix and self.completion.endswith(self.suffix):
+                        self.completion = self.completion[: -1 * len(self.suffix)]
 
-                        # And we stop the streaming
-                        self.streaming_finished_event.set()
-                        self.top_k_nonempty_lines_event.set()
-                        return
+                    # We only forward what the current chunk adds to the final completion.
+                    chunk = self.completion[len(prev_completion) :]
+
+            # After a stop chunk, we also stop the streaming.
+            finished = stopped or chunk is None or chunk == ""
 
             if self.pipe_to:
                 asyncio.create_task(self.pipe_to.push_chunk(chunk))
-                if chunk is None or chunk == "":
-                    self.streaming_finished_event.set()
-                    self.top_k_nonempty_lines_event.set()
             else:
                 if self.enable_print and chunk is not None:
                     print(f"\033[92m{chunk}\033[0m", end="", flush=True)
                 await self.queue.put(chunk)
 
-                if chunk is None or chunk == "":
-                    self.streaming_finished_event.set()
-                    self.top_k_nonempty_lines_event.set()
+            if finished:
+                self.streaming_finished_event.set()
+                self.top_k_nonempty_lines_event.set()
 
     async def push_chunk(
         self, chunk: Union[str, GenerationChunk, AIMessageChunk, None]
@@ -213,13 +219,14 @@ class StreamingHandler(AsyncCallbackHandler, AsyncIterator):
                 self.current_chunk += chunk
 
             if self.current_chunk.startswith(self.prefix):
-                self.current_chunk = self.current_chunk[len(self.prefix) :]
+                remainder = self.current_chunk[len(self.prefix) :]
+                self.current_chunk = ""
                 self.prefix = None
 
-                # If we're left with something, we "forward it".
-                if self.current_chunk:
-                    await self._process(self.current_chunk)
-                    self.current_chunk = ""
+                # If we're left with something, we push it as a regular chunk, so that
+                # the suffix/stop logic below applies to it as well.
+                if remainder:
+                    await self.push_chunk(remainder)
         elif self.suffix or self.stop:
             # If we have a suffix, we always check that the total current chunk does not end
             # with the suffix.
@@ -250,17 +257,10 @@ class StreamingHandler(AsyncCallbackHandler, AsyncIterator):
                 # the generation ends and if there's something left, will be processed then.
                 return
             else:
-                if chunk == "" or chunk is None:
-                    if (
-                        self.current_chunk
-                        and self.suffix
-                        and self.current_chunk.endswith(self.suffix)
-                    ):
-                        self.current_chunk = self.current_chunk[
-                            0 : -1 * len(self.suffix)
-                        ]
-
-                await self._process(self.current_chunk)
+                # When the generation ended, the suffix is removed as well.
+                await self._process(
+                    self.current_chunk, final=(chunk == "" or chunk is None)
+                )
                 self.current_chunk = ""
         else:
             await self._process(chunk)
@@ -310,10 +310,7 @@ class StreamingHandler(AsyncCallbackHandler, AsyncIterator):
     ) -> None:
         """Run when LLM ends running."""
         if self.current_chunk:
-            if self.suffix and self.current_chunk.endswith(self.suffix):
-                self.current_chunk = self.current_chunk[: -1 * len(self.suffix)]
-
-            await self._process(self.current_chunk)
+            await self._process(self.current_chunk, final=True)
             self.current_chunk = ""
 
         await self._process("")
